@@ -193,6 +193,18 @@ class _FuncInline(SiteRewriter):
         ast = RenameTarget.apply(ast, subst)
 
         # merge free variables
+        # (a free variable of the callee must keep meaning the captured value: a local of the
+        # caller with the same name would capture it once the body sits in the caller)
+        caller_locals = {
+            d.name for d in self.def_use.defs
+            if not (isinstance(d, AssignDef) and d.is_free)
+        }
+        for name in ast.free_vars:
+            if name in caller_locals:
+                raise RuntimeError(
+                    f'cannot inline function `{e.fn.name}`: its free variable `{name}` '
+                    f'is shadowed by a local variable of the caller'
+                )
         for name in ast.free_vars:
             if str(name) in self.env:
                 # already in the environment, check that it is the same
